@@ -48,7 +48,13 @@ func c12Profiles(tier string) []Profile {
 	faulted := Profile{Name: "after-failed-flush", Exec: OnlyOracles(c07Exec(1, 1, false), "durable", "observe", "model"),
 		Budget: map[int]int{1: 0, 2: 0, 3: 1}, ShardLevel: 3,
 		Rule: "collections when a file call fails: the C07 driver (8 initial stores x every single operation x one failing file call at every index, retried or not; a call that reports success is taken at its word) followed by Set, Flush, the full read battery, a copy of the file re-opened, Reopen and the battery again; contents oracles only: among the initial stores is one with two collections that both hold unflushed changes - a failure while one collection is written must not be forgotten because another one was written successfully"}
-	return []Profile{faulted, p.Profile(fmt.Sprintf("every history of length <= %d over SetCollection(x|y) with nil / an order-equivalent wrapper / (while <= 1 item) the reverse comparator, on new and on existing names, RemoveCollection of present and absent names, Set/Delete through the handle currently registered, Flush, Reopen, one snapshot; oracles: sorted names, new name empty, existing name keeps items, remove+create empty, other collections and the snapshot untouched, a copy of the file re-opens to the names and contents of the last Flush only", d))}
+	var conc []Profile
+	for _, sc := range c05More() {
+		if sc.Name == "S15-flush-vs-setcollection" {
+			conc = append(conc, sc.Profile(2))
+		}
+	}
+	return append(conc, faulted, p.Profile(fmt.Sprintf("every history of length <= %d over SetCollection(x|y) with nil / an order-equivalent wrapper / (while <= 1 item) the reverse comparator, on new and on existing names, RemoveCollection of present and absent names, Set/Delete through the handle currently registered, Flush, Reopen, one snapshot; oracles: sorted names, new name empty, existing name keeps items, remove+create empty, other collections and the snapshot untouched, a copy of the file re-opens to the names and contents of the last Flush only", d)))
 }
 
 func init() {
